@@ -487,7 +487,7 @@ func ContextAfterFunc(site string, ctx context.Context, f func()) func() bool {
 // AtomicAfter wraps an atomic operation that returns a value.
 //go:norace
 func AtomicAfter[T any](site string, v T) T {
-	if s := cur(); s != nil && s.self() != nil {
+	if s := cur(); s != nil && s.cfg.AtomicYield && s.self() != nil {
 		Yield(site)
 	}
 	return v
@@ -497,7 +497,7 @@ func AtomicAfter[T any](site string, v T) T {
 //go:norace
 func AtomicVoid(site string, f func()) {
 	f()
-	if s := cur(); s != nil && s.self() != nil {
+	if s := cur(); s != nil && s.cfg.AtomicYield && s.self() != nil {
 		Yield(site)
 	}
 }
